@@ -397,6 +397,7 @@ type Clause struct {
 	Src   string
 	E     Expr
 	Seq   bool // "seq:" prefix — checked/assumed in seq mode only
+	Mon   bool // "mon:" prefix — a clause about interleavings: proved in mon mode only, never assumed at call sites
 	Acq   bool // "acq:" prefix — mon mode only; old() is the state at the latest write-lock acquisition
 	Props []string
 }
@@ -593,6 +594,10 @@ func parseClause(rest string) (Clause, error) {
 	}
 	if strings.HasPrefix(r, "acq:") {
 		c.Acq = true
+		r = strings.TrimSpace(r[4:])
+	}
+	if strings.HasPrefix(r, "mon:") {
+		c.Mon = true
 		r = strings.TrimSpace(r[4:])
 	}
 	if i := strings.Index(r, ":"); i > 0 && i+1 < len(r) && r[i+1] != ':' && r[i+1] != '=' {
